@@ -73,9 +73,13 @@ pub enum Mac {
     FlagArg,
     /// parameters behind a `;` that is a character or part of a string, not a comment
     SemiLit,
+    /// the whole body is one .org (the argument is made increasing by the renderer)
+    OnlyOrg,
+    /// the whole body is a segment directive and its way back
+    OnlySeg,
 }
 
-const MACS: [Mac; 21] = [Mac::Dw, Mac::Scale, Mac::Regs, Mac::Ldd, Mac::Ten, Mac::Outer, Mac::Mid, Mac::Cond, Mac::Dseg, Mac::Eseg, Mac::Org, Mac::OrgOuter, Mac::EmitOnce, Mac::Maybe, Mac::Probe, Mac::Setter, Mac::Optional, Mac::TailCseg, Mac::TailOrg, Mac::FlagArg, Mac::SemiLit];
+const MACS: [Mac; 23] = [Mac::Dw, Mac::Scale, Mac::Regs, Mac::Ldd, Mac::Ten, Mac::Outer, Mac::Mid, Mac::Cond, Mac::Dseg, Mac::Eseg, Mac::Org, Mac::OrgOuter, Mac::EmitOnce, Mac::Maybe, Mac::Probe, Mac::Setter, Mac::Optional, Mac::TailCseg, Mac::TailOrg, Mac::FlagArg, Mac::SemiLit, Mac::OnlyOrg, Mac::OnlySeg];
 
 enum BL {
     Text(&'static str),
@@ -106,12 +110,14 @@ impl Mac {
             Mac::TailOrg => "m_tailorg",
             Mac::FlagArg => "m_flagarg",
             Mac::SemiLit => "m_semilit",
+            Mac::OnlyOrg => "m_onlyorg",
+            Mac::OnlySeg => "m_onlyseg",
         }
     }
     fn nparams(self) -> usize {
         match self {
-            Mac::Dw | Mac::Scale | Mac::Dseg | Mac::Eseg | Mac::Org | Mac::OrgOuter | Mac::Maybe | Mac::TailCseg | Mac::TailOrg | Mac::FlagArg => 1,
-            Mac::EmitOnce | Mac::Probe | Mac::Setter => 0,
+            Mac::Dw | Mac::Scale | Mac::Dseg | Mac::Eseg | Mac::Org | Mac::OrgOuter | Mac::Maybe | Mac::TailCseg | Mac::TailOrg | Mac::FlagArg | Mac::OnlyOrg => 1,
+            Mac::EmitOnce | Mac::Probe | Mac::Setter | Mac::OnlySeg => 0,
             Mac::Ldd | Mac::Outer | Mac::Mid | Mac::Cond | Mac::Optional | Mac::SemiLit => 2,
             Mac::Regs => 3,
             Mac::Ten => 10,
@@ -148,6 +154,8 @@ impl Mac {
             Mac::Probe => vec![BL::Text(".ifdef PROBE_FLAG"), BL::Text("ldi r28, 1"), BL::Text(".else"), BL::Text("ldi r28, 2"), BL::Text(".endif")],
             Mac::Setter => vec![BL::Text(".define PROBE_FLAG"), BL::Text("ldi r29, 7")],
             Mac::Optional => vec![BL::Text(".if @0 > 5"), BL::Text("ldi r29, low(@1) ; uses @1"), BL::Text(".endif"), BL::Text("ldi r30, low(@0) // not @1")],
+            Mac::OnlyOrg => vec![BL::Text(".org @0")],
+            Mac::OnlySeg => vec![BL::Text(".dseg"), BL::Text(".cseg")],
             Mac::FlagArg => vec![BL::Text(".ifdef @0"), BL::Text("ldi r28, 5"), BL::Text(".else"), BL::Text("ldi r28, 6"), BL::Text(".endif")],
             Mac::SemiLit => vec![BL::Text(".db ';', low(@1)"), BL::Text(".db \"k;\", low(@0)"), BL::Text("cpi r16, ';' ; a comment with @1"), BL::Text(".db \"\u{b0}C \u{e9}\", low(@0), \"\u{20ac}\", low(@1)")],
             Mac::TailCseg => vec![BL::Text(".eseg"), BL::Text(".db @0"), BL::Text(".cseg")],
@@ -341,6 +349,8 @@ impl MacModel {
         m.insert(Mac::Optional, vec![vec![e("9"), e("3")], vec![e("2")], vec![e("(2+3)")], vec![e("0"), e("77")]]);
         m.insert(Mac::TailCseg, vec![vec![e("0x21")], vec![e("1+1")]]);
         m.insert(Mac::TailOrg, vec![vec![e("0")]]);
+        m.insert(Mac::OnlyOrg, vec![vec![e("0")]]);
+        m.insert(Mac::OnlySeg, vec![vec![]]);
         m.insert(Mac::FlagArg, vec![vec![raw("FeatureX")], vec![raw("OtherFlag")], vec![raw("featurex")]]);
         m.insert(Mac::SemiLit, vec![vec![e("1"), e("2")], vec![e("0x10"), e("'a'")]]);
         m.insert(Mac::Org, vec![vec![e("0")]]);
@@ -435,7 +445,7 @@ impl MacModel {
                 }
                 Act::Call(m, ai, c) => {
                     let org_args;
-                    let args = if matches!(m, Mac::Org | Mac::OrgOuter | Mac::TailOrg) {
+                    let args = if matches!(m, Mac::Org | Mac::OrgOuter | Mac::TailOrg | Mac::OnlyOrg) {
                         // positions must increase along the program: 0x100 per trace position
                         org_args = vec![Arg::Expr(format!("{}", 0x100 * (i + 1)))];
                         &org_args
@@ -702,7 +712,7 @@ pub fn run(tier: Tier) -> i32 {
     let distinct = outcomes.lock().unwrap().len();
     rep.guard(n_ok.load(Ordering::Relaxed) > 1000 && n_err.load(Ordering::Relaxed) > 1000, "need both Ok and Err outcomes");
     rep.guard(distinct > 300, "fewer than 300 distinct observed images");
-    rep.guard(mac_use.lock().unwrap().len() >= 24, "not every macro family / feature was exercised");
+    rep.guard(mac_use.lock().unwrap().len() >= 26, "not every macro family / feature was exercised");
     for s in samples.into_inner().unwrap() {
         rep.sample(|| s);
     }
